@@ -168,7 +168,7 @@ func paramClass(cs *refexp.Case) string {
 func c13Gen(c *core.Ctx) {
 	refexp.Product(func(cs refexp.Case) { core.Do(c, c13Case{Case: cs, Kind: "product"}, c13Exec) })
 	// random draws: values, words and other-variable contents
-	n := c.Pick(40000, 1500000)
+	n := c.Pick(40000, 10000000)
 	params := refexp.Params()
 	pool := []string{"a", "b", " ", ",", ":", "*", "?", "é", "日", "/", "x", "\t", "[", "]", "-", "."}
 	rs := func(r interface{ IntN(int) int }, k int) string {
